@@ -263,6 +263,7 @@ def search(r, m):
                     % (len(cs), c["src"], c["args"] or "none", c["ref"], c["got"], c["cfg"]), {"count": len(cs), "examples": cs[:3]},
                     kind="converse-divergence", theorem="C01 (last sentence: rewrites may only change speed)")
     r.coverage["search"] = dict(s, distinct_violations=len(seen), converse_keys=sorted(by_rule))
+    r.coverage["regression_corpus"] = {"programs": s.get("regression_programs"), "note": "bare reproducers of every defect found so far, replayed first; repaired ones are no longer known findings, so a regression prints a VIOLATION"}
     r.log("search: %d programs (%d succeed without rewrites), %d violations, %d converse divergences; corpus %d/%d"
           % (s["programs"], s["reference_ok"], len(seen), len(conv), s["corpus_reference_ok"], s["corpus_items"]))
     return s["programs"] * 3 + s["corpus_items"] * 3
